@@ -640,6 +640,21 @@ fn c16_rpc_dump_v2() {
     rpc_dump(2, 9, false)
 }
 
+//# harness: c16_rpc_dump_v2_v6
+//# props: C16 C19
+//# tier: quick
+//# encodes: proto::rpc::repl_udp, rpc_parse, build_repl, build_repl_portmap, push_string_pad, push_u32
+//# bounds: 40-byte ONC-RPC DUMP call over UDP, version 2; XID, flavors, endpoint (IPv6) symbolic
+//# stubs: alloc::fmt::format -> arbitrary printable text of the stated length (same text at every call)
+//# out: the rendering of address and port into the universal-address text (std formatting of IpAddr / integers)
+//# cover: DUMP answered
+#[kani::proof]
+#[kani::unwind(42)]
+#[kani::stub(alloc::fmt::format, crate::verif_util::fmt_any_stub)]
+fn c16_rpc_dump_v2_v6() {
+    rpc_dump(2, 9, true)
+}
+
 //# harness: c16_rpc_dump_v3_9
 //# props: C16 C19
 //# tier: quick
